@@ -408,6 +408,83 @@ func init() {
 			{Name: "pool", N: func(c *Ctx) int { return len(c05Pool) * len(c05Pool) * len(c05Ops) }, Run: c05PoolRun, Exhaustive: true},
 			{Name: "random", N: func(c *Ctx) int { return tierN(c, 60000, 1500000) }, Run: c05Random},
 			{Name: "ladder", N: func(c *Ctx) int { return tierN(c, 400, 20000) }, Run: c05Ladder},
+			{Name: "long-sums", N: func(c *Ctx) int { return tierN(c, 600, 40000) }, Run: c05LongSums},
 		},
 	})
+}
+
+// c05LongSums: sum / avg over 2..1500 numbers that span far more than 34 orders of magnitude, built
+// so that every left-to-right running total is exactly representable (the model decides exactly
+// those): the array is a sequence of episodes, each at its own magnitude 10^k, each made of small
+// multiples of 10^k that add up to zero, with only the last episode leaving a remainder.  Any
+// regrouping of the additions (pairwise or blocked summation, sorting by magnitude, compensated
+// sums, partial sums kept per worker) puts a partial total of one episode next to the members of
+// another and loses them; the exact result has a handful of digits.
+func c05LongSums(c *Ctx, idx int) {
+	r := c.Rand("")
+	n := gen.Pick(r, []int{2, 5, 64, 127, 128, 129, 130, 200, 255, 256, 257, 300, 511, 513, 700, 1023, 1025, 1500})
+	if r.Chance(30) {
+		n = 2 + r.Intn(600)
+	}
+	var els []string
+	mant := func() int { return gen.Pick(r, []int{1, 1, 2, 3, 7, 10, 25, 99, 12345}) }
+	for len(els) < n {
+		k := gen.Pick(r, []int{-40, -20, -2, 0, 3, 17, 30, 35, 36, 40, 60, 100, 300, 6000, -6000})
+		left := n - len(els)
+		ln := 2 + r.Intn(150)
+		last := ln >= left
+		if last {
+			ln = left
+		}
+		total := 0
+		for j := 0; j < ln; j++ {
+			var v int
+			switch {
+			case !last && j == ln-1:
+				v = -total
+			case r.Chance(35):
+				v = 0
+			case r.Chance(50) && total != 0:
+				v = -total
+			default:
+				v = mant()
+				if r.Chance(40) {
+					v = -v
+				}
+			}
+			total += v
+			switch {
+			case v == 0 && r.Chance(50):
+				els = append(els, "0")
+			case k == 0:
+				els = append(els, fmt.Sprint(v))
+			default:
+				els = append(els, fmt.Sprintf("%de%d", v, k))
+			}
+		}
+	}
+	arr := &ref.Arr{E: []ref.V{}}
+	for _, t := range els {
+		arr.E = append(arr.E, gen.Num(fixNum(t)))
+	}
+	doc := ref.NewObj()
+	doc.Set("xs", arr)
+	mode := ref.NumMode(ref.JSONNumber)
+	route := "json.Number"
+	if idx%3 == 1 {
+		mode, route = decimalMode, "decimal128"
+	}
+	for _, text := range []string{"sum(xs)", "avg(xs)", "sum(xs) == sum(reverse(reverse(xs)))", "[sum(xs[:-1]), xs[-1]]"} {
+		if idx%3 == 2 && text == "sum(xs)" {
+			// the same numbers written as a literal
+			text = "sum(`[" + strings.Join(els, ",") + "]`)"
+		}
+		m := c05Check(c, text, doc, mode, route)
+		if !m.Unspec {
+			c.Nontrivial(clipS(text, 80), fmt.Sprint(idx), route)
+			if n < 12 {
+				c.Sample(map[string]any{"expr": text, "xs": strings.Join(els, ","), "route": route, "model": m.String()})
+			}
+		}
+	}
 }
